@@ -52,11 +52,35 @@ func genC17(t *rapid.T) c17Case {
 			cs.Deployers = append(cs.Deployers, i)
 		}
 	}
-	kinds := []string{"deploy20", "deploy20", "deploy20", "deploystaking", "params", "disable", "probe", "probe"}
+	kinds := []string{"deploy20", "deploy20", "deploy20", "deploystaking", "params", "disable", "disable", "redeploy", "redeploy", "probe", "probe"}
 	for n := rapid.IntRange(2, 10).Draw(t, "nsteps"); n > 0; n-- {
 		s := c17Step{Kind: rapid.SampledFrom(kinds).Draw(t, "kind"), Signer: rapid.IntRange(0, 3).Draw(t, "signer"), Name: rapid.IntRange(0, len(c17Names)-1).Draw(t, "name"),
 			Denom: rapid.IntRange(0, len(c17Denoms)-1).Draw(t, "denom"), Decimals: rapid.SampledFrom([]uint32{0, 6, 18, 255, 256, 274}).Draw(t, "decimals"),
 			Version: uint32(rapid.IntRange(0, 2).Draw(t, "version")), Mask: rapid.IntRange(0, 15).Draw(t, "mask"), Idx: rapid.IntRange(0, 9).Draw(t, "idx"), Flag: rapid.Bool().Draw(t, "flag")}
+		if s.Kind == "redeploy" {
+			// the same deployment again (typically after the first one was disabled / the whitelist changed):
+			// at most one ERC-20 precompile per denomination must survive any such history
+			s.Kind = "deploy20"
+			var earlier []c17Step
+			for _, e := range cs.Steps {
+				if e.Kind == "deploy20" {
+					earlier = append(earlier, e)
+				}
+			}
+			if len(earlier) > 0 {
+				e := earlier[rapid.IntRange(0, len(earlier)-1).Draw(t, "redeployof")]
+				s.Name, s.Denom, s.Decimals = e.Name, e.Denom, e.Decimals
+				if rapid.Bool().Draw(t, "samesigner") {
+					s.Signer = e.Signer
+				}
+			}
+		} else if s.Kind == "deploy20" && rapid.Bool().Draw(t, "plausible") {
+			// bias towards deployments that can succeed
+			s.Name, s.Denom, s.Decimals = 0, rapid.IntRange(0, 1).Draw(t, "gooddenom"), 6
+			if len(cs.Deployers) > 0 {
+				s.Signer = cs.Deployers[rapid.IntRange(0, len(cs.Deployers)-1).Draw(t, "goodsigner")]
+			}
+		}
 		cs.Steps = append(cs.Steps, s)
 	}
 	cs.Steps = append(cs.Steps, c17Step{Kind: "probe", Idx: rapid.IntRange(0, 9).Draw(t, "lastprobe")})
